@@ -407,7 +407,18 @@ func (e *LockEngine) stepBlock(fn *ssa.Function, b *ssa.BasicBlock, cfg *lockCfg
 				if isNil {
 					en = 1
 				} else {
-					en = 0
+					// "not the nil constant" only counts as non-nil when the value is known to be one; a
+					// result variable joined from several paths (`return result, err`) can be either
+					en = -1
+					nn := true
+					for _, v := range resultValues(t, len(t.Results)-1) {
+						if !knownNonNil(v, b, 0) {
+							nn = false
+						}
+					}
+					if nn {
+						en = 0
+					}
 				}
 			}
 			for _, c := range cfgs {
